@@ -15,6 +15,19 @@ _tr.TieBroken = TieBroken
 XMLNS = "http://www.gnu.org/software/gama/gama-local-adjustment"
 
 
+
+def _is_wall_timeout(crash):
+    """run_cases reports a wall-clock expiry of the whole batch as (-9, "timeout") on its first case: the machine is loaded;
+    termination itself is judged by the harness' CPU timer (exit status 88)"""
+    return crash is not None and crash[0] == -9 and crash[1] == "timeout"
+
+
+def _wall_inconclusive(corr, what):
+    corr.count("wall_clock_expired_without_cpu_exhaustion")
+    if len(corr.inconclusive) < 20:
+        corr.inconclusive.append("wall-clock limit expired without CPU exhaustion (loaded machine): " + what)
+
+
 def translate(ctx):
     _tr.run(ctx.repo, ctx.verif)
 
@@ -211,11 +224,11 @@ def _par_cases(exe, cases, workers=8):
     """run_cases on `workers` slices in parallel (one process each); indices are mapped back"""
     import concurrent.futures
     if len(cases) < 4 * workers:
-        return run_cases(exe, cases, timeout=1200)
+        return run_cases(exe, cases, timeout=3600)
     step = (len(cases) + workers - 1) // workers
     slices = [(a, cases[a:a + step]) for a in range(0, len(cases), step)]
     with concurrent.futures.ThreadPoolExecutor(max_workers=workers) as ex:
-        res = list(ex.map(lambda sl: run_cases(exe, sl[1], timeout=1200), slices))
+        res = list(ex.map(lambda sl: run_cases(exe, sl[1], timeout=3600), slices))
     outs, crashes = [], {}
     for (a, _), (o, c) in zip(slices, res):
         outs += o
@@ -328,14 +341,20 @@ def run_stream(ctx, corr, bases=None):
         corr.count("adjres_docs")
         payload = {"stream": "adjres-events", "label": label, "doc": b.decode("utf-8", "replace") if len(b) < 30000 else None,
                    "doc_hex": b.hex() if len(b) < 30000 else None, "split": k}
+        if i in crashes and _is_wall_timeout(crashes[i]):
+            _wall_inconclusive(corr, f"adjres event stream batch starting at {label}")
+            continue
         if i in crashes:
             rc, err = crashes[i]
-            what = "does not terminate (10 s limit)" if rc == 88 else "sanitizer report / abnormal exit rc=%s" % rc
+            what = "does not terminate (10 s CPU-time limit)" if rc == 88 else "sanitizer report / abnormal exit rc=%s" % rc
             m = re.search(r"SUMMARY: \w+: (\S+)", err or "")
             fr = re.findall(r"#\d+ 0x[0-9a-f]+ in (\S+)", err or "")
             corr.fail(f"adjustment-results reader: {what}{': ' + m.group(1) if m else ''} [{label}]", payload,
                       next((x for x in fr if "LocalNetworkAdjustmentResults" in x), fr[0] if fr else "LocalNetworkAdjustmentResults::Parser"),
                       (err or "")[:2500])
+            continue
+        if i in mcr and _is_wall_timeout(mcr[i]):
+            _wall_inconclusive(corr, f"adjres model driver batch starting at {label}")
             continue
         if i in mcr:
             corr.disagree("adjres-events", payload, out[-3:], model[i][-3:], "model driver crashed: " + mcr[i][1][-300:])
